@@ -1,4 +1,5 @@
 import KafVerif.Model.PLogRead
+import KafVerif.Model.PLogLoss
 import KafVerif.Prelude.Driver
 /-!
 Line protocol of the C02/C03/C04 storage-level correspondence (same op lines and result lines as
@@ -11,6 +12,7 @@ structure World where
   logs : List (Option PLog)     -- 3 slots
   gatedLog : Option Nat
   foa : Bool := true            -- broker ops: flushOnAck
+  lost : List (List Int) := [[], [], []]   -- per log: bases of S3 segment objects whose index object is lost
 
 def World.init : World := { logs := [none, none, none], gatedLog := none }
 
@@ -33,6 +35,17 @@ def dump (l : PLog) : String :=
 
 def setLog (w : World) (k : Nat) (l : PLog) : World := { w with logs := w.logs.set k (some l) }
 
+def getL (w : World) (k : Nat) (l : PLog) : LLog := { l := l, noIdx := w.lost.getD k [] }
+
+def setL (w : World) (k : Nat) (x : LLog) : World :=
+  { w with logs := w.logs.set k (some x.l), lost := w.lost.set k x.noIdx }
+
+def showRead : ReadOut → String
+  | .data b => "d:" ++ toHex b
+  | .oor => "oor"
+  | .err => "err"
+  | .panic => "panic"
+
 def parseEntries : List String → Option (List (Int × Int))
   | [] => some []
   | w :: t => match w.splitOn "@" with
@@ -51,7 +64,7 @@ def stepLog (w : World) (k : Nat) (ws : List String) : World × String :=
       if (c ≠ "0" ∧ c ≠ "1") ∨ w.gatedLog.isSome then (w, "bad-op") else
       let w := if k == 0 then World.init else w
       let l := PLog.new iv (c == "1") st
-      (setLog w k l, "new | " ++ dump l)
+      (setL w k { l := l }, "new | " ++ dump l)
     | _, _ => (w, "bad-op")
   | _ =>
   match (w.logs.getD k none) with
@@ -72,28 +85,28 @@ def stepLog (w : World) (k : Nat) (ws : List String) : World × String :=
     | ["flush"] =>
       if w.gatedLog.isSome then (w, "busy") else
       let l' := flush l
-      (setLog w k l', "flushed | " ++ dump l')
+      (setL w k (afterCommit (getL w k l) l'), "flushed | " ++ dump l')
     | ["gate"] =>
       if w.gatedLog.isSome then (w, "busy") else
       let (l', g) := gate l
       if g then ({ setLog w k l' with gatedLog := some k }, "gated | " ++ dump l')
-      else (setLog w k l', "nogate | " ++ dump l')
+      else (setL w k (afterCommit (getL w k l) l'), "nogate | " ++ dump l')
     | ["release"] =>
       if w.gatedLog != some k then (w, "busy") else
       let l' := release l
-      ({ setLog w k l' with gatedLog := none }, "released | " ++ dump l')
+      ({ setL w k (afterCommit (getL w k l) l') with gatedLog := none }, "released | " ++ dump l')
     | ["restart"] =>
       if w.gatedLog.isSome then (w, "busy") else
-      let (l', last) := restart l
-      (setLog w k l', s!"restarted {last} | " ++ dump l')
+      let (x', r) := restoreAt (getL w k l) l.hw
+      (setL w k x', (match r with | .ok last => s!"restarted {last}" | .err => "err") ++ " | " ++ dump x'.l)
     | ["restartat", st] =>
       match st.toInt? with
       | none => (w, "bad-op")
       | some st =>
         if w.gatedLog.isSome then (w, "busy") else
         if st < l.origin ∨ st > l.hw then (w, "bad-op") else
-        let (l', last) := restartAt l st
-        (setLog w k l', s!"restarted {last} | " ++ dump l')
+        let (x', r) := restoreAt (getL w k l) st
+        (setL w k x', (match r with | .ok last => s!"restarted {last}" | .err => "err") ++ " | " ++ dump x'.l)
     | ["dropcache"] =>
       if l.cacheOn then
         let w' := { w with logs := w.logs.map fun ol => ol.map fun q => if q.cacheOn then { q with cached := [] } else q }
@@ -109,10 +122,28 @@ def stepLog (w : World) (k : Nat) (ws : List String) : World × String :=
           | .err => "err"
           | .panic => "panic") ++ " | " ++ dump l')
       | _, _ => (w, "bad-op")
+    | ["read2", o1, m1, o2, m2] =>
+      match o1.toInt?, m1.toInt?, o2.toInt?, m2.toInt? with
+      | some o1, some m1, some o2, some m2 =>
+        let (l1, r1) := read l o1 m1
+        let (l2, r2) := read l1 o2 m2
+        (setLog w k l2, s!"read2 {showRead r1} {showRead r2} | " ++ dump l2)
+      | _, _, _, _ => (w, "bad-op")
     | "find" :: o :: es =>
       match o.toInt?, parseEntries es with
       | some o, some es => let e := findIndexEntry es o; (w, s!"entry {e.1}@{e.2}")
       | _, _ => (w, "bad-op")
+    | [lossOp, b] =>
+      match b.toInt? with
+      | none => (w, "bad-op")
+      | some b =>
+        if w.gatedLog.isSome then (w, "bad-op") else
+        if lossOp == "delindex" || lossOp == "badindex" then
+          (setL w k (loseIndex (getL w k l) b), "lost | " ++ dump l)
+        else if lossOp == "delseg" then
+          let x' := loseSeg (getL w k l) b
+          (setL w k x', "lost | " ++ dump x'.l)
+        else (w, "bad-op")
     | _ => (w, "bad-op")
 
 /-! ### broker-level ops (`handleProduce` / `handleFetch` / broker restart) -/
